@@ -11,6 +11,7 @@ func init() {
 		Title: "Bounds is the tight bounding box and FastBounds contains it",
 		Explanation: "Decides, for every path, the structural clauses of Bounds/FastBounds/Rect hulls: each accumulator returned as a low (high) side is only ever updated by math.Min (math.Max) folds that include itself; no fold nests the opposite operator; Bounds folds every segment end point into all four sides unconditionally; FastBounds folds every decoded control/end point into all four sides with min/max and X/Y candidate sets mirrored (arc: centre∓max(rx,ry)); Rect.Transform/Add/AddPoint hulls are pure and complete. A violated clause makes the box exclude a point of the path for some input. NOT decided: which Bézier/arc extrema are computed (root finding, angle tests), tightness, equivariance.",
 		Run: func(c *core.Ctx, r *core.Report) {
+			E2CarriedShadow(c, r)
 			E3ArcShortcut(c, r)
 			E3BoundingBoxes(c, r)
 			E3BoundsExtrema(c, r)
@@ -62,6 +63,7 @@ func init() {
 			E2RecordLayout(c, r)
 			E2RecordConstruction(c, r)
 			E11CutCarried(c, r)
+			E11SubpathFlag(c, r)
 		},
 	})
 }
@@ -80,6 +82,7 @@ func init() {
 		Run: func(c *core.Ctx, r *core.Report) {
 			E4ParserGuards(c, r)
 			E4ParserProgress(c, r)
+			E11SVGSmooth(c, r)
 			E2PenTracking(c, r, []string{"Path.ToSVG", "Path.ToPS", "Path.ToPDF"})
 			r.Rule("E4.panic-reach", "no explicit panic(...) call in the module or its Go dependencies is reachable in the VTA call graph from ParseSVGPath or ParseSVG, except sites in the reviewed table (function + message -> why no parser input reaches it)")
 			roots := []*ssa.Function{c.SSAFunc("", "ParseSVGPath"), c.SSAFunc("", "ParseSVG")}
@@ -151,6 +154,7 @@ func init() {
 			E2RecordLayout(c, r)
 			E2RecordConstruction(c, r)
 			E2CloseRewrite(c, r)
+			E2CarriedShadow(c, r)
 			E3DominantAxis(c, r)
 			E11SplitCap(c, r)
 			E11StuckVariables(c, r)
@@ -180,6 +184,7 @@ func init() {
 		Title: "Context and Canvas apply views, coordinate systems and state as documented",
 		Explanation: "Decides, for every call sequence: view helpers are exactly `view = view.Mul(Identity.<same-named op>(own parameters))` (post-multiplication) and ComposeView post-multiplies its argument; the four draw entry points assemble the same matrix CoordSystemView().Mul(view).Translate(coordView.Dot(x,y)) and compensate text/images exactly in the coordinate systems whose CoordSystemView reflects that axis; every Set*/Reset* method stores only into ContextState; Push saves and Pop restores the whole ContextState (Pop guarded, shrinking by one); Fill/Stroke clear and restore exactly the other paint; drawing does not rewrite the dash array shared with pushed states; RenderViewTo replays in sorted z-index then slice order with no renderer call inside a map range, and recording appends to the current z-index slice. NOT decided: the matrix algebra itself, Fit/Clip/Transform arithmetic, that DrawPath with several paths keeps per-path stroke state.",
 		Run: func(c *core.Ctx, r *core.Report) {
+			E11DashCover(c, r)
 			E11DrawLoopState(c, r)
 			E11DashParity(c, r)
 			E11FitStroke(c, r)
@@ -207,6 +212,7 @@ func init() {
 		Title: "Stroke and Offset realise exact distance offsets of the path",
 		Explanation: "Decides one clause only, 'closed subpaths are joined, not capped' (and its dual: open sub-paths are capped iff stroking): in (*Path).offset the closed flag is set exactly by a Close command, every Capper call is control-dependent on !closed && strokeOpen and placed at the two ends, the Joiner wraps around from the last to the first segment when closed, the closed branch closes both offset curves, and Stroke/Offset pass strokeOpen true/false; plus the angle-unit consistency of the arc rotation passed to ArcTo (E8, whole package). NOT decided: every distance clause (w/2 neighbourhood, miter limit, inner-bend repair, offset direction).",
 		Run: func(c *core.Ctx, r *core.Report) {
+			E11SubpathLoops(c, r)
 			E11CapJoin(c, r)
 			E8Units(c, r)
 		},
@@ -215,6 +221,9 @@ func init() {
 		Title: "Dashing cuts the path by arc length according to the pattern",
 		Explanation: "Decides two structural clauses: (1) 'independently for every subpath': in Dash the only variable carried across iterations of the sub-path loop is the output accumulator and every iteration restarts from (i0, pos0); (2) pieces cut by SplitAt are made relative to the previous cut in every curve case (E11.cut-carried), read the sub-path's own data (E2 cursor domain) and keep the arc rotation in consistent units (E8). NOT decided: every arithmetic clause (phase, period, offsets, arc-length inversion, piece order, joining of closed sub-paths, degenerate patterns). Argument mutation by Dash is decided under C10/C15.",
 		Run: func(c *core.Ctx, r *core.Report) {
+			E11DashPeriod(c, r)
+			E11DashOffsetRange(c, r)
+			E11DashCover(c, r)
 			E11DashParity(c, r)
 			E11DashIndependence(c, r)
 			E11CutCarried(c, r)
@@ -295,6 +304,7 @@ func init() {
 			E7OnceBeforeUse(c, r, c20APIRoots(c))
 			E7PoolReinit(c, r)
 			E7MapOrder(c, r)
+			E7Clock(c, r)
 			E1SharedFont(c, r)
 			E1FontLibraryCalls(c, r)
 			E1SharedArgs(c, r)
